@@ -329,6 +329,10 @@ structure HandlerFacts where
       the request being answered, taken from the view of the current read buffer – and hand exactly that
       to the writer -/
   serversEchoViewQuery : Bool
+  /-- `#[derive(RepeStruct)]` (repe-derive): the nested-field arm treats the request as addressing
+      "the nested struct itself" exactly when `tail.is_empty()`, and otherwise forwards `tail`
+      unchanged; plain fields and methods reject a non-empty `tail`; the head is `segments.split_first()` -/
+  deriveTailTests : Bool
   deriving Repr
 
 end Repe.Router
